@@ -18,13 +18,23 @@ RULE = ('case = (transport, close path, number of requests in flight 0..3, peer 
         'requests, close() after the peer dropped the connection, close() from inside a listener callback, failed hello '
         '(silent / garbage+EOF / EOF) and failed connect through manager.connect_uds/_tls/_ssh (thorough: wrong password, '
         'rejected subsystem, TLS handshake never answered / untrusted CA), and open/close cycles counting threads and '
-        'descriptors. quick = Unix socketpair; thorough adds TLS over loopback TCP and SSH over a socketpair. distinct = '
+        'descriptors; SSH only (ssh_buffered): k = 0..3 (thorough: up to 6) chunks of BUF_SIZE octets sit in paramiko\'s channel '
+        'buffer when close() closes the transport, the worker being caught inside a listener callback / between select and '
+        'recv / in select - loop iterations after the close are counted against 1 + k. quick = Unix socketpair + 12 SSH '
+        'cases (the 8 ssh_buffered ones included); thorough adds TLS over loopback TCP and SSH over a socketpair. distinct = '
         'distinct case tuples; non-trivial = a handle was opened (all but the pre-handle connect failures).')
-ASSUMES = ['O1: a read begun after the local close of the socket/transport returns no data (EOF or error) - validated by every trace',
+ASSUMES = ['O1 (TLS/Unix): a read begun after the local close of the socket returns no data (EOF or error) - validated by every trace',
+           'O4 (SSH): a chunk enters the channel buffer only while the transport is open: after Transport.close() returned / is_active() '
+           'was false nothing more is fed - validated: the chunks read after the close never exceed ceil(len(channel.in_buffer)/BUF_SIZE) measured at the close',
+           'O5 (SSH): channel.recv(BUF_SIZE) hands out the buffer oldest first, one chunk per call, and returns b\'\' only when it is empty - validated by every SSH trace',
            'O2: closing the socket / paramiko transport (or an inactive transport) closes the connection towards the peer - observed as EOF at the peer within 2 s in every case',
            'O3: Thread.join/is_alive report "not alive" only after run() ended',
            'listener callbacks return (a callback that blocks forever blocks the worker and so close())']
 TRUSTED = ['modelled, not verified: kernel socket/epoll semantics, OpenSSL shutdown, paramiko transport/channel teardown, threading.Thread',
+           'oracle hypotheses O1-O5 are built into Model/Close.v step (no Axiom/Parameter): O4 = Arrive is enabled only while socket_open, '
+           'O5 = Read (RData n) pops the head of chan and Read REof needs chan = [] on SSH; C12_ssh_bound, C12_ssh_bound_from_closing, '
+           'C12_ssh_worker_terminates and C12_ssh_close_returns hold under them',
+           'SSH chunk accounting of the harness: len(paramiko Channel.in_buffer) read under the log lock right after Transport.close() returned',
            'harness logging discipline (flag writes/reads logged under one lock; blocking calls as Begin/result pairs)']
 ALLOWED_AXIOMS = []
 
@@ -39,6 +49,10 @@ PROG = {'ssh': ['SetClosing', 'ClearConn', 'CloseHandle', 'JoinW', 'ChanDrop', '
 def P():
     from harness import c12_peers
     return c12_peers
+
+def SB():
+    from harness import c12_sshbuf
+    return c12_sshbuf
 
 def rundir():
     from vlib import paths
@@ -123,6 +137,14 @@ def to_labels(kind, plog, connect_failed=None):
         elif lab == 'SetClosing': cstep(a, 'SetClosing')
         elif lab in ('SockClose', 'TransportClose'):
             if prog[a] is not None: cstep(a, 'CloseHandle')
+            if lab == 'TransportClose' and arg is not None: out.append([SB().MARK, arg])     # octets buffered in the channel
+        elif lab == 'TransportInactive':
+            # ssh close(): `if self._transport.is_active()` was false - the guarded statement is skipped here
+            if prog[a] and 'CloseHandle' in prog[a]:
+                while prog[a][0] != 'CloseHandle':
+                    c = prog[a].pop(0); emit([8, a, CSTEP[c], 0 if c == 'JoinW' else 1], a == 1)
+                prog[a].pop(0); emit([8, a, CSTEP['CloseHandle'], 0], a == 1)
+                out.append([SB().MARK, arg])
         elif lab == 'DropChannelClose':
             if prog[a] is not None: cstep(a, 'ChanDrop')
         elif lab == 'Join':
@@ -179,6 +201,7 @@ def to_labels(kind, plog, connect_failed=None):
     if connect_failed == 'pre': out.append([2])
     elif connect_failed == 'cleanup': out.extend([[0], [1]])
     elif connect_failed == 'late' and not failed_emitted[0]: out.append([2])
+    if kind == 'ssh': out = SB().ssh_arrivals(out)       # the channel buffer: Arrive labels (Model/Close.v O4, O5)
     return out, msg_rid
 
 def _prev_read_eof(out):
@@ -342,6 +365,8 @@ def scenario(case, files):
             r.raised = type(e).__name__
         r.t_ret = p.now()
         r.s._plog_add('CsRet')
+    elif path == 'ssh_buffered':
+        SB().scenario_buffered(case, r, opn, submit, p)
     elif path == 'failed_hello':
         r.s, r.peer, err = manager_connect(kind, files, r, hello=case['hello'])
         r.raised = type(err).__name__ if err else None
@@ -492,6 +517,11 @@ def oracle(case, r, o):
     st = o.get('reqs', {})
     if st.get('open'): bad.append(('%d request(s) in flight at close neither answered nor failed' % len(st['open']), None))
     if st.get('bad_error'): bad.append(('pending request failed with a non-transport error %s' % st['bad_error'][:2], None))
+    if case['transport'] == 'ssh':
+        with s._plock: plog = list(s._plog)
+        o['ssh_iter'] = SB().iterations(plog)
+        bad.extend(SB().iteration_oracle(plog))
+        if o.get('client_close_returned'): bad.extend(SB().release_oracle(s))
     return bad
 
 def correspond(case, r, o, model):
@@ -539,6 +569,10 @@ def correspond(case, r, o, model):
               client_closed=mo['client_closed'], cb_after=mo['cb_after'])
     for k in mm:
         if mm[k] != im[k]: diffs.append('%s: model %r, implementation %r' % (k, mm[k], im[k]))
+    if case['transport'] == 'ssh':
+        info, d2 = SB().iteration_tie(labels, mo, model)
+        if info: mo['ssh_iter'] = info
+        diffs.extend(d2)
     return labels, mo, im, diffs
 
 def cleanup(r):
@@ -609,6 +643,11 @@ def gen_cases(kind, rng, thorough):
     if kind == 'ssh':
         cs.append(dict(transport=kind, path='failed_connect', fault='badpw'))
         cs.append(dict(transport=kind, path='failed_connect', fault='nosubsys'))
+        cs.extend(SB().quick_cases(rng))                    # k = 0..3 chunks buffered in the channel at close
+        if thorough:
+            for _ in range(8):
+                cs.append(dict(transport=kind, path='ssh_buffered', mode=rng.choice(['callback', 'gate']), k=rng.randint(1, 6),
+                               pending=rng.randint(0, 2), msg=rng.choice([300, 700, 1000, 1500, 4096, 5000])))
     # extra random races
     for _ in range(6 if not thorough else 20):
         cs.append(dict(transport=kind, path='race_reply', pending=rng.randint(1, 3), delay=rng.choice([0, 0.0005, 0.002, 0.005])))
@@ -661,6 +700,18 @@ def check_case(ctx, case, files, model, retries=3):
             ctx.disagree(case, res['model'], res['impl'], res['diffs'][0], theorem='C12_* (trace acceptance / predicted observables)')
     return res
 
+def _ssh_iter_evidence(ctx, case, res):
+    """SSH: loop iterations after the transport was closed against the chunks buffered then (C12_ssh_bound)"""
+    it = (res.get('obs') or {}).get('ssh_iter')
+    if not it: return
+    ctx.hist('ssh_chunks_buffered_at_close', it['buffered_chunks'])
+    ctx.hist('ssh_iterations_after_close minus chunks_buffered (bound: <= 1)', it['selects_after_close'] - it['buffered_chunks'])
+    if case.get('path') == 'ssh_buffered':
+        mi = (res.get('model') or {}).get('ssh_iter') or {}
+        ctx.extra.setdefault('ssh_buffered', []).append(dict(k=case['k'], mode=case['mode'], octets=it['buffered_octets'],
+            chunks=it['buffered_chunks'], iterations_after_close=it['selects_after_close'], bound=it['bound'],
+            model_bound=mi.get('model_bound'), model_sel_after_close=mi.get('model_sel_after_close')))
+
 def run(ctx):
     thorough = ctx.tier == 'thorough'
     kinds = ['unix'] + (['tls', 'ssh'] if thorough else [])
@@ -682,6 +733,7 @@ def run(ctx):
             ctx.hist('transport', kind); ctx.hist('path', case['path']); ctx.hist('pending', case.get('pending', 0))
             ctx.hist('labels_per_trace', min(200, 10 * (len(res['labels']) // 10)))
             if res['obs'].get('exit_delay') is not None: ctx.hist('worker_exit_delay_s', '%.1f' % res['obs']['exit_delay'])
+            if kind == 'ssh': _ssh_iter_evidence(ctx, case, res)
             if ctx.evaluations % 17 == 1:
                 ctx.sample({'case': case, 'obs': {k: v for k, v in res['obs'].items() if k != 'reqs'}, 'n_labels': len(res['labels'])})
         if ctx.failures or len(ctx.disagreements) >= 3:
@@ -697,12 +749,15 @@ def run(ctx):
                          expected='no growth of live threads / open descriptors', actual=lk)
     if not thorough and not (ctx.failures or len(ctx.disagreements) >= 3):
         # quick tier: the SSH transport is represented by its three most distinctive paths
-        for case in (dict(transport='ssh', path='failed_connect', fault='badpw'), dict(transport='ssh', path='close', pending=1),
+        for case in [dict(transport='ssh', path='failed_connect', fault='badpw'), dict(transport='ssh', path='close', pending=1),
                      dict(transport='ssh', path='close_session', close_rpc='ok_close', pending=0, rpc_timeout=0.3),
-                     dict(transport='ssh', path='close_session', close_rpc='ok_open', pending=0, rpc_timeout=1.0, stream=True)):
+                     dict(transport='ssh', path='close_session', close_rpc='ok_open', pending=0, rpc_timeout=1.0, stream=True)
+                     ] + SB().quick_cases(ctx.rng):
+            if ctx.failures or len(ctx.disagreements) >= 3: break
             res = check_case(ctx, case, files, ctx.model)
             ctx.count(case); ctx.hist('transport', 'ssh'); ctx.hist('path', case['path'])
             ctx.traces += 1 if res['model'] is not None and res['model'].get('accepted') else 0
+            _ssh_iter_evidence(ctx, case, res)
     ctx.exhaustive = False
 
 def search(ctx, seeds):
